@@ -103,6 +103,41 @@ func c01AsciiSink(p *Prog) *RuleResult {
 				return
 			}
 			key := FuncName(fn) + " " + sinkDesc(arg)
+			// a string parameter of a printer helper: constant ASCII at every call site of the helper
+			if prm, ok := arg.(*ssa.Parameter); ok && fn.Parent() == nil {
+				pi := -1
+				for i, q := range fn.Params {
+					if q == prm {
+						pi = i
+					}
+				}
+				sites, allConst := 0, pi >= 0
+				for _, caller := range p.ModuleFuncs() {
+					eachInstr(caller, func(_ *ssa.BasicBlock, cin ssa.Instruction) {
+						cc, ok := cin.(ssa.CallInstruction)
+						if !ok || cc.Common().StaticCallee() != fn || pi >= len(cc.Common().Args) {
+							return
+						}
+						sites++
+						ss, ok := constStrings(cc.Common().Args[pi], 0)
+						if !ok {
+							allConst = false
+							return
+						}
+						for _, sv := range ss {
+							for i := 0; i < len(sv); i++ {
+								if sv[i] >= 0x80 {
+									allConst = false
+								}
+							}
+						}
+					})
+				}
+				if allConst && sites > 0 && !p.addressTaken(fn) {
+					r.OK(key+" (constant at every call site)", true, fmt.Sprintf("the parameter is a constant ASCII string at all %d call sites of the helper", sites))
+					return
+				}
+			}
 			if asciiOnlyFalseFact(b) {
 				r.OK(key+" (under !ASCIIOnly)", true, "printed only when the charset is not ASCII")
 				return
